@@ -164,7 +164,7 @@ pub fn run(ctx: &Ctx) -> i32 {
     ev.extra.insert("regression_histories_replayed".into(), json!(replayed));
     if c.id == "C08" {
         ev.extra.insert("requests_inside_a_reorg".into(), json!(inside_reorg));
-        ev.rule = format!("{} Add-on, exhaustive small family ({inside_reorg} cases): for every reorg depth 1-3, 1-2 extra blocks, every replacement block k and a user registered below / on top of the reorged blocks, an add_appointment (new, or an update of one stored on top of the reorged blocks, which must then be what reads back) is made from inside the poll right before block k is fetched (the tower stands at fork height + k - 1, lower than before the poll for small k): receipt start_block == that height, stored row == receipt, reads back.", ev.rule);
+        ev.rule = format!("{} Add-on, exhaustive small family ({inside_reorg} cases): for every reorg depth 1-3, 1-2 extra blocks, every replacement block k and a user registered below / on top of the reorged blocks, an add_appointment (new, or an update of one stored on top of the reorged blocks, which must then be what reads back) is made from inside the poll right before block k is fetched (the tower stands at fork height + k - 1, lower than before the poll for small k): receipt start_block == that height, stored row == receipt, reads back. Likewise a registration (a new user, or a renewal; the other user registered below / on top of the reorged blocks) is made there: a new subscription runs from that height to that height + duration, a renewal keeps its start and adds one duration and one grant, the persisted row equals the receipt, the subscription is usable afterwards.", ev.rule);
     }
     runner::conclude(ctx, c.id, stats, ev, started)
 }
